@@ -33,12 +33,15 @@ func (c *Ctx) pairRule(rule, reader, writer string, skip map[string]bool) (r, w 
 		c.R.Infof(rule, name(r), "pair:"+shortID(name(w)), c.Pos(r.Pos()), "not decided for this shape: the writer uses "+why)
 		return
 	}
-	rl := c.flatten(c.codecTable(r, true), true, 0)
-	wl := c.flatten(c.codecTable(w, false), false, 0)
+	rl := c.leavesOf(r, true, 0)
+	wl := c.leavesOf(w, false, 0)
 	if len(rl) == 0 || len(wl) == 0 {
 		c.R.Undecf(rule, name(r), "table", c.Pos(r.Pos()), "reader and writer must use the encoding/binary idioms the table extraction understands",
 			fmt.Sprintf("extracted %d reader and %d writer entries", len(rl), len(wl)))
 		return
+	}
+	if skip["@uefi-body"] {
+		rl, wl = normaliseUEFIBody(rl, false), normaliseUEFIBody(wl, true)
 	}
 	ok, det := sameLeaves(rl, wl, skip)
 	c.R.Check(ok, rule, name(r), "pair:"+shortID(name(w)), c.Pos(r.Pos()),
@@ -61,7 +64,7 @@ func (c *Ctx) layoutRule(rule string, fn *ssa.Function, isRead bool, filter func
 		c.R.Infof(rule, name(fn), "layout:"+specName, c.Pos(fn.Pos()), "not decided for this shape: the codec uses "+why)
 		return
 	}
-	ls := c.flatten(c.codecTable(fn, isRead), isRead, 0)
+	ls := c.leavesOf(fn, isRead, 0)
 	var got []leaf
 	for _, l := range ls {
 		if l.alias && isRead {
@@ -84,7 +87,10 @@ func (c *Ctx) layoutRule(rule string, fn *ssa.Function, isRead bool, filter func
 		}
 		nameOK := strings.HasSuffix(got[k].id, "."+want[k].name) || got[k].id == want[k].name || lastComponent(got[k].id) == lastComponent(want[k].name) ||
 			got[k].src != nil && got[k].src.field == nil && !strings.Contains(got[k].id, ".")
-		if !nameOK || got[k].width != want[k].width || (got[k].order != "LE" && got[k].order != "-") {
+		if got[k].id == "(skipped)" || got[k].id == "value" || got[k].id == "bytes" {
+			nameOK = true
+		}
+		if !nameOK || got[k].width != want[k].width || (got[k].order != "LE" && got[k].order != "-" && got[k].width != 1) {
 			ok = false
 			det = fmt.Sprintf("position %d is %s, %s has %s (%d bytes, little endian)", k+1, got[k], specName, want[k].name, want[k].width)
 		}
@@ -760,4 +766,36 @@ func (c *Ctx) blockExcludesEOF(fn *ssa.Function, b *ssa.BasicBlock, e ssa.Value)
 
 func (c *Ctx) returnExcludesEOF(fn *ssa.Function, r *ssa.Return, e ssa.Value) bool {
 	return c.blockExcludesEOF(fn, r.Block(), e)
+}
+
+// normaliseUEFIBody: in the WIN_CERTIFICATE_UEFI_GUID codecs the reader consumes
+// the certificate body as one run (and re-parses it), while the writer emits it
+// as type GUID + data (with the header's own body emptied or not written at
+// all). Both are reduced to one BODY run after the three header fields.
+func normaliseUEFIBody(ls []leaf, isWriter bool) []leaf {
+	var out []leaf
+	inBody := false
+	for _, l := range ls {
+		if l.alias {
+			continue
+		}
+		last := lastComponent(l.id)
+		isHdrBody := strings.HasSuffix(l.id, ".WINCertificate.Certificate") || last == "Certificate"
+		isGUID := strings.Contains(l.id, ".CertType.Data") && l.width > 0 && (last == "Data1" || last == "Data2" || last == "Data3" || last == "Data4")
+		isData := last == "CertData"
+		if isHdrBody || isWriter && (isGUID || isData) {
+			if isGUID && l.order != "LE" {
+				out = append(out, l) // a wrong byte order must stay visible
+				continue
+			}
+			if !inBody {
+				out = append(out, leaf{id: "BODY", width: -1, order: "-", src: l.src})
+				inBody = true
+			}
+			continue
+		}
+		inBody = false
+		out = append(out, l)
+	}
+	return out
 }
